@@ -65,7 +65,8 @@ class AppendNode(ConfigList):
         nodes = into.ayns.get_node(path, intermediate=True, names=True, incomplete=None)
         if nodes is not None and len(nodes) >= 2 and isinstance(nodes[-2][0], list):
             node, name, _ = nodes[-1]
-            placeholder = ConfigNode(None, priority=node.ayns.priority)
+            # (of the lowest priority around: whatever the grown list and its elements carry, they take its place)
+            placeholder = ConfigNode(None, priority=min(ConfigNode.WEAK, node.ayns.priority))
             # (made while building, not while a source is being read: the safety of the source is that of the element it stands in for)
             placeholder._default_safe = node._default_safe
             nodes[-2][0].ayns.set_child(name, placeholder)
